@@ -65,6 +65,10 @@ def jobs(tier, seed):
                         out.append(('mat-%s-o%d-n%d-m%d-k%d' % (method, order, n, m, k),
                                     dict(kind='mat', method=method, order=order, n=n, m=m, k=k, drive='e2e')))
                 out.append(('grad-%s-o%d-n%d' % (method, order, n), dict(kind='grad', method=method, order=order, n=n, m=0, k=0, drive='e2e')))
+            # matrix-valued f with the DEFAULT generators (per-coordinate nominal steps differ: |x_j| > 1 for some j)
+            for (n_, m_, k_) in ((3, 2, 2), (3, 1, 3)):
+                out.append(('mat-%s-o%d-n%d-m%d-k%d-rows' % (method, order, n_, m_, k_),
+                            dict(kind='mat', method=method, order=order, n=n_, m=m_, k=k_, drive='rows')))
         for n in (1, 2, 3):
             out.append(('dirdiff-%s-n%d' % (method, n), dict(kind='dirdiff', method=method, order=2, n=n, m=0, k=0, drive='e2e')))
         for xs, vs in (((2, 2), (2, 2)), ((2, 2), (4,)), ((4,), (2, 2)), ((2, 3), (2, 3)), ((3, 1), (3,))):
